@@ -439,20 +439,26 @@ class _Flow(Exception):
     pass
 
 
-OPAQUE_METHODS = {'but'}
+# API methods of the AST classes whose contract is checked by their own rule (M3: but, M5: cast) and which every other
+# rule uses as an opaque fact
+OPAQUE_METHODS = {'but', 'cast'}
 
 
 def default_inline(fi: FunctionInfo, depth: int) -> bool:
     """inline small, loop-free helpers only (factories, properties, one-liners)"""
     if depth > 6:
         return False
-    if fi.name in OPAQUE_METHODS and fi.cls is not None:
-        return False  # API methods whose contract is checked by their own rule (M3) and used as an opaque fact elsewhere
+    if fi.name in OPAQUE_METHODS and fi.cls is not None and any(b.name == 'HplAstObject' for b in fi.cls.mro()):
+        return False
     nstmt = 0
     nif = 0
     for n in ast.walk(fi.node):
-        if isinstance(n, (ast.For, ast.While, ast.Try, ast.With, ast.Yield, ast.YieldFrom)):
+        if isinstance(n, (ast.For, ast.While, ast.With, ast.Yield, ast.YieldFrom)):
             return False
+        if isinstance(n, ast.Try):
+            # a try whose handlers only wrap-and-re-raise does not change the value that flows through
+            if n.finalbody or n.orelse or not all(len(h.body) == 1 and isinstance(h.body[0], ast.Raise) for h in n.handlers):
+                return False
         if isinstance(n, ast.stmt):
             nstmt += 1
         if isinstance(n, (ast.If, ast.IfExp)):
@@ -625,6 +631,8 @@ class Evaluator:
             env[a.vararg.arg] = args.get(a.vararg.arg, Sym('*' + a.vararg.arg))
         if a.kwarg:
             env[a.kwarg.arg] = args.get(a.kwarg.arg, Sym('**' + a.kwarg.arg))
+        if fi.cls is not None:
+            env['__class__'] = ClassRef(fi.cls.name)
         st = _State(env)
         outs: List[Outcome] = []
         finals = self.block(fi.node.body, [st], fi.module, fi, depth, outs)
@@ -699,14 +707,24 @@ class Evaluator:
         # the first outcome's guards are dropped when it is the only one
         if len(outs) == 1:
             pass
+        seen_e = set(map(repr, st.effects))
         for o in outs:
-            if o.effects:
-                st.effects = st.effects + tuple(o.effects)
-                break  # effects of the first path are representative for inlined pure helpers
+            for e in o.effects:
+                k = repr(e)
+                if k not in seen_e:
+                    seen_e.add(k)
+                    st.effects = st.effects + (e,)
+        seen_t = set(map(repr, st.trace))
         for o in outs:
-            if o.trace:
-                st.trace = st.trace + tuple(o.trace)
-                break
+            for e in o.trace:
+                k = repr(e)
+                if k not in seen_t:
+                    seen_t.add(k)
+                    st.trace = st.trace + (e,)
+        for o in outs:
+            for a in o.asserts:
+                if a not in st.asserts:
+                    st.asserts = st.asserts + (a,)
         return result
 
     @staticmethod
@@ -862,6 +880,7 @@ class Evaluator:
         body_st = st.fork()
         body_st.effects = ()
         body_st.guards = ()
+        body_st.trace = ()
         assigned = self._assigned_names(s.body) + ([n.id for n in ast.walk(s.target) if isinstance(n, ast.Name)] if isinstance(s, ast.For) else [])
         for n in assigned:
             body_st.env[n] = Opaque(f'loopvar:{n}')
@@ -878,8 +897,13 @@ class Evaluator:
                 if e not in effs:
                     effs.append(e)
             flow = f.env.pop('__flow__', None)
+            # calls that were inlined leave no effect term: keep them visible through the trace
+            extra = tuple(t for t in f.trace if t not in f.effects)
             paths.append((f.guards, flow.value if isinstance(flow, Const) else 'end',
-                          tuple((n, f.env[n]) for n in sorted(set(assigned)) if n in f.env), f.effects))
+                          tuple((n, f.env[n]) for n in sorted(set(assigned)) if n in f.env), f.effects + extra))
+            for t in f.trace:
+                if t not in st.trace:
+                    st.trace = st.trace + (t,)
         has_break = any(isinstance(n, ast.Break) for b in s.body for n in ast.walk(b))
         raises = tuple((o.guards, o.value) for o in inner if o.kind == 'raise')
         returns = tuple((o.guards, o.value) for o in inner if o.kind == 'return')
@@ -1037,6 +1061,11 @@ class Evaluator:
                 if _c(idx.lo) and _c(idx.hi) and _c(idx.step):
                     sl = slice(idx.lo.value if idx.lo else None, idx.hi.value if idx.hi else None, idx.step.value if idx.step else None)
                     return TupleT(base.items[sl], base.kind)
+            bd = base.value if isinstance(base, GlobalVal) else base
+            if isinstance(bd, DictT) and isinstance(idx, (Const, EnumMember)) and not store and all(isinstance(k, (Const, EnumMember)) for k, _ in bd.items):
+                for k, v in bd.items:
+                    if k == idx:
+                        return v
             if isinstance(base, ClassRef) and isinstance(idx, Const) and isinstance(idx.value, str):
                 ci = self.m.classes.get(base.name)
                 if ci is not None and ci.is_enum and idx.value in ci.enum_members:
@@ -1137,9 +1166,13 @@ class Evaluator:
                     pass
         if op in ('is', 'is not') and is_const(b, None) and isinstance(a, (New, ClassRef, FuncRef, Lam, Template, TupleT, EnumMember)):
             return Const(op == 'is not')
-        if op in ('in', 'not in') and isinstance(b, TupleT) and atom(a) and all(atom(x) for x in b.items):
-            r = any(a == x for x in b.items)
-            return Const(r if op == 'in' else not r)
+        if op in ('in', 'not in'):
+            c = b.value if isinstance(b, GlobalVal) else b
+            if isinstance(c, Call) and isinstance(c.func, Ext) and c.func.name in ('frozenset', 'set', 'tuple', 'list') and len(c.args) == 1 and isinstance(c.args[0], TupleT):
+                c = c.args[0]
+            if isinstance(c, TupleT) and atom(a) and all(atom(x) for x in c.items):
+                r = any(a == x for x in c.items)
+                return Const(r if op == 'in' else not r)
         return Op(op, (a, b))
 
     def boolop(self, op: str, vals: List[Term]) -> Term:
@@ -1182,6 +1215,12 @@ class Evaluator:
                     return Const(x // y)
                 if op == '%' and not isinstance(x, str):
                     return Const(x % y)
+                if op == '<<' and isinstance(x, int) and isinstance(y, int) and 0 <= y < 256:
+                    return Const(x << y)
+                if op == '>>' and isinstance(x, int) and isinstance(y, int) and 0 <= y < 256:
+                    return Const(x >> y)
+                if op in ('&', '|', '^') and isinstance(x, int) and isinstance(y, int):
+                    return Const({'&': x & y, '|': x | y, '^': x ^ y}[op])
             except Exception:
                 pass
         if op == '+':
@@ -1258,9 +1297,13 @@ class Evaluator:
                 if name == 'name':
                     return Const(base.name)
             return key
+        if isinstance(base, Call) and isinstance(base.func, Ext) and base.func.name == 'super' and not base.args and '__class__' in st.env and 'self' in st.env:
+            cur = self.m.classes.get(st.env['__class__'].name) if isinstance(st.env['__class__'], ClassRef) else None
+            if cur is not None:
+                for c in cur.mro()[1:]:
+                    if name in c.methods:
+                        return BoundMethod(Op('super', (st.env['self'],)), c.methods[name].key, name)
         if isinstance(base, Ext):
-            if base.name == 'math' or base.name.startswith('module:'):
-                return Ext(f'{base.name}.{name}')
             return Ext(f'{base.name}.{name}')
         if isinstance(base, New) and not store:
             v = base.get(name)
@@ -1350,6 +1393,9 @@ class Evaluator:
             if m is not None:
                 self.resolved_calls += 1
                 recv = func.recv
+                is_super = isinstance(recv, Op) and recv.op == 'super'
+                if is_super:
+                    recv = recv.args[0]
                 if isinstance(recv, ClassRef) and m.kind in ('method', 'property'):
                     # unbound method called with explicit self
                     if args:
@@ -1362,14 +1408,16 @@ class Evaluator:
                     recv_arg = recv
                 bt = self.type_of(recv) if not isinstance(recv, ClassRef) else None
                 virtual = False
-                if bt is not None and not isinstance(recv, New):
+                if bt is not None and not isinstance(recv, New) and not is_super:
                     virtual = bool(self.m.overrides(bt, m.name))
                 if not star and (not virtual or self.virtual_inline) and self.inline(m, depth):
                     if m.kind == 'staticmethod':
-                        r = self.inline_call(m, None, args, kwargs, st, depth) if not m.node.args.args or True else None
+                        r = self.inline_call(m, None, args, kwargs, st, depth)
                     else:
                         r = self.inline_call(m, recv_arg, args, kwargs, st, depth)
                     if r is not None:
+                        if m.kind != 'property':
+                            st.trace = st.trace + (Call(func, args, kwargs),)
                         return r
             c = Call(func, args, kwargs)
             st.trace = st.trace + (c,)
@@ -1381,6 +1429,7 @@ class Evaluator:
                 if not star and self.inline(m, depth):
                     r = self.inline_call(m, None, args, kwargs, st, depth)
                     if r is not None:
+                        st.trace = st.trace + (Call(func, args, kwargs),)
                         return r
             c = Call(func, args, kwargs)
             st.trace = st.trace + (c,)
@@ -1415,6 +1464,15 @@ class Evaluator:
             return TupleT(())
         if n == 'len' and len(args) == 1 and isinstance(args[0], TupleT) and not any(isinstance(x, Op) and x.op == '*' for x in args[0].items):
             return Const(len(args[0].items))
+        if n in ('any', 'all') and len(args) == 1 and isinstance(args[0], Comp) and len(args[0].gens) == 1:
+            tgt, it, ifs = args[0].gens[0]
+            items = it.items if isinstance(it, TupleT) and not any(isinstance(x, Op) and x.op == '*' for x in it.items) else None
+            if items is not None and not ifs and len(items) <= 6 and tgt.isidentifier():
+                each = Sym(f'each:{tgt}')
+                vals = [subst(args[0].elt, {each: x}) for x in items]
+                if not vals:
+                    return Const(n == 'all')
+                return self.boolop('or' if n == 'any' else 'and', vals)
         if n == 'bool' and len(args) == 1:
             tv = self.truth(args[0])
             if tv is not None and not isinstance(args[0], (New, ClassRef, FuncRef, Lam)):
@@ -1433,6 +1491,35 @@ class Evaluator:
                 names = {x.name for x in c.mro()}
                 return Const(any(t.name in names for t in targets))
         return Call(func, args, kwargs)
+
+
+def subst(t: Term, m: Dict[Term, Term]) -> Term:
+    """structural substitution of sub-terms"""
+    if t in m:
+        return m[t]
+    if isinstance(t, Attr):
+        return Attr(subst(t.base, m), t.name)
+    if isinstance(t, BoundMethod):
+        return BoundMethod(subst(t.recv, m), t.key, t.name)
+    if isinstance(t, Call):
+        return Call(subst(t.func, m), tuple(subst(a, m) for a in t.args), tuple((k, subst(v, m)) for k, v in t.kwargs))
+    if isinstance(t, New):
+        return New(t.cls, tuple((k, subst(v, m)) for k, v in t.fields))
+    if isinstance(t, TupleT):
+        return TupleT(tuple(subst(a, m) for a in t.items), t.kind)
+    if isinstance(t, Sub):
+        return Sub(subst(t.base, m), subst(t.index, m))
+    if isinstance(t, Op):
+        return Op(t.op, tuple(subst(a, m) for a in t.args))
+    if isinstance(t, Ite):
+        return Ite(subst(t.test, m), subst(t.a, m), subst(t.b, m))
+    if isinstance(t, Fmt):
+        return Fmt(subst(t.value, m), t.conv, t.spec)
+    if isinstance(t, Template):
+        return Template(tuple(subst(a, m) for a in t.parts))
+    if isinstance(t, Comp):
+        return Comp(t.kind, subst(t.elt, m), tuple((tg, subst(it, m), tuple(subst(c, m) for c in ifs)) for tg, it, ifs in t.gens))
+    return t
 
 
 def _is_mutable_container(v: Term) -> bool:
